@@ -14,7 +14,7 @@ def main(c):
     lines = []
     sizes = [0, 1, 31, 32, 33, 100, 65535, 65536, 65537, 70000, 131072, 131073]
     ent = lambda n: ",".join(rnd.choice(["f", "f", "f", "s%d" % rnd.randint(1, 47), "s1"]) for _ in range(n))
-    for _ in range(c.pick(25, 300)):
+    for _ in range(c.pick(25, 120)):
         seq = [rnd.choice(sizes) for _ in range(rnd.randint(1, 6))]
         lines.append("drbg %s %s" % (",".join(map(str, seq)), ent(12)))
     # long runs crossing several reseed intervals
@@ -41,7 +41,8 @@ def main(c):
         seq = [1] * pre + [big] + [1] * 3
         lines.append("drbg %s %s" % (",".join(map(str, seq)), ent(12)))
     if not c.quick:
-        seq = [65537] * 126 + [32] * 6 + [131073] + [32] * 3
+        # (each byte of output is recomputed in TLA+: the run is kept to about 1.5 MB)
+        seq = [65537] * 20 + [1] * 212 + [32] * 6 + [131073] + [32] * 3
         lines.append("drbg %s %s" % (",".join(map(str, seq)), ent(12)))
     # process life cycle: descriptors closed and re-used between two reseeds; random bytes asked for by an exit handler registered
     # before the generator was first used
@@ -54,7 +55,7 @@ def main(c):
     for _ in range(c.pick(5, 50)):
         lines.append("drbg %s %s" % (",".join(["32"] * 260), ",".join(rnd.choice(["s1", "s7", "s31", "s47", "f"]) for _ in range(30))))
     c.cov["calls"] = len(lines)
-    g.run(c, exe, lines, "drbg", per=2, tv_timeout=1700)
+    g.run(c, exe, lines, "drbg", per=2, tv_timeout=2400)
     c.cov["rule"] = ("sequences of request sizes over {0, 1, 31, 32, 33, 100, 65535, 65536, 65537, 70000, 131072, 131073}; runs of 257..800 requests crossing several "
                      "reseed intervals; the OS entropy source scripted at the open/read level (full reads, short reads of 1..47 bytes, read error EIO / EINTR also after a short read, EOF, open failure); empty requests and requests of several 65536-byte pieces counted against the reseed interval; "
                      "with a failure at each of its first four requests followed by further calls; every read re-run by TLC in Drbg.tla (HMAC in TLA+ over the JDK "
